@@ -18,12 +18,15 @@ pub struct Case {
     /// for Deserialised: build the bytes from a structured spec instead of the honest key
     pub structured_sk: Option<SkSpec>,
     pub structured_pk: Option<PkSpec>,
+    /// place the object at an odd multiple of its alignment (wide-store wipes that assume more are caught)
+    #[serde(default)]
+    pub misalign: bool,
 }
 
 fn strategy() -> impl Strategy<Value = Case> {
     let prov = prop_oneof![Just(Provenance::Generated), Just(Provenance::Deserialised), Just(Provenance::Derived), Just(Provenance::Cloned)];
-    (0u8..3, any::<bool>(), prov, gen::seed32(), proptest::option::of(gen::sk_spec()), proptest::option::of(gen::pk_spec()))
-        .prop_map(|(set, private, prov, seed, structured_sk, structured_pk)| Case { set, private, prov, seed, structured_sk, structured_pk })
+    (0u8..3, any::<bool>(), prov, gen::seed32(), proptest::option::of(gen::sk_spec()), proptest::option::of(gen::pk_spec()), any::<bool>())
+        .prop_map(|(set, private, prov, seed, structured_sk, structured_pk, misalign)| Case { set, private, prov, seed, structured_sk, structured_pk, misalign })
 }
 
 pub fn check(c: &Case, st: &mut Stats) -> CheckResult {
@@ -41,7 +44,7 @@ pub fn check(c: &Case, st: &mut Stats) -> CheckResult {
         None
     };
     let xi = c.seed.bytes();
-    let probe = g("drop", || libr.drop_probe(private, c.prov, &xi, structured.as_deref()))?;
+    let probe = g("drop", || libr.drop_probe(private, c.prov, &xi, structured.as_deref(), c.misalign))?;
     let Some(pr) = probe else {
         st.class("skipped:bytes_rejected");
         return Ok(());
@@ -50,6 +53,7 @@ pub fn check(c: &Case, st: &mut Stats) -> CheckResult {
     let kind = if private { "PrivateKey" } else { "PublicKey" };
     let tag = format!("set{}:{kind}:{:?}", p.id, c.prov);
     st.class(&tag);
+    st.class(if c.misalign { "placement:odd multiple of the alignment" } else { "placement:128-byte aligned" });
     // expected object size: no padding, every byte belongs to a field
     let expect = if private { 128 + 1024 * (p.l + 2 * p.k) } else { 96 + 1024 * p.k };
     if pr.size != expect {
@@ -88,7 +92,7 @@ pub fn check(c: &Case, st: &mut Stats) -> CheckResult {
 
 pub fn run(ctx: &Ctx, rep: &mut Report) {
     rep.assume("only the object's own storage is observed (heap slot, ManuallyDrop::drop in place, volatile reads); copies made elsewhere by moves or by into_bytes(self) are outside the property as stated");
-    rep.assume("reading the slot after drop_in_place is done through a raw pointer into memory the harness still owns (Box<ManuallyDrop<T>>), so the read is defined behaviour");
+    rep.assume("the object is moved into a buffer the harness owns (at a 128-byte boundary, or at an odd multiple of the type's alignment), dropped there with drop_in_place, and the buffer is read with volatile loads afterwards; the buffer outlives the object, so the read is defined behaviour");
     run_generated(ctx, rep, "drop_probe", ctx.n(20_000, 400_000), strategy, check);
 }
 
